@@ -23,6 +23,18 @@ def settingsRun (j : Json) : R Json := do
   let (_, outs) := mrun (MState.init b) evs
   pure <| Json.mkObj [("reads", jList jInt (outs.filterMap id))]
 
+/-- events addressed to several Settings objects: `[obj, thread, kind, ...]` -/
+def settingsWorld (j : Json) : R Json := do
+  let bases ← listOf (listOf int) (← fld j "bases")
+  let evs ← listOf (fun e => do
+      let a ← arr e
+      let o ← nat (← at! a 0)
+      let ev ← parseEvent (Json.arr (a.extract 1 a.size))
+      pure ((o, ev) : OEvent)) (← fld j "events")
+  let w : World := fun o => MState.init (fun k => (bases.getD o []).getD k 0)
+  let (_, outs) := wrun w evs
+  pure <| Json.mkObj [("reads", jList jInt (outs.filterMap (·.2)))]
+
 def parseTOp (j : Json) : R TOp := do
   let a ← arr j
   let kind ← str (← at! a 0)
